@@ -283,6 +283,82 @@ def boundary_cases(layout_name, real=None):
 
 
 # --------------------------------------------------------------------------------------
+# lattice stream: positions on the 5-degree / 1-degree grid (the spreading panner's virtual sources sit on a
+# 5-degree grid, so coincidences with the object's local axes only occur there) and on the 0.25 / 0.1 Cartesian grid
+
+LATTICE_ELS = [85, -85, 80, -80, 45, -45, 40, -40, 30, -30, 0]
+EXT_WIDE = [(360.0, 20.0), (270.0, 90.0), (360.0, 0.0), (180.0, 20.0)]
+EXT_TALL = [(90.0, 180.0), (5.0, 360.0), (20.0, 360.0), (0.0, 180.0)]
+EXT_ALL = [(0.0, 0.0), (5.0, 5.0), (20.0, 20.0), (90.0, 90.0), (180.0, 180.0), (270.0, 270.0), (360.0, 360.0),
+           (20.0, 90.0), (90.0, 5.0), (5.0, 20.0), (180.0, 90.0), (360.0, 90.0), (0.0, 20.0)] + EXT_WIDE + EXT_TALL
+
+
+def _lat_base(layout_name, real):
+    return {
+        "layout": layout_name, "real": real, "cartesian": False, "position": [0.0, 0.0, 1.0], "edge": [None, None],
+        "width": 0.0, "height": 0.0, "depth": 0.0, "diffuse": 0.0, "gain": 1.0, "screenRef": False, "lock": None,
+        "div": None, "zones": [], "ogain": 1.0, "mute": False, "offset": None, "refscreen": None, "version": None,
+    }
+
+
+def lattice_cases(rng, layout_name, real=None, full=False):
+    """Deterministic-by-rng list of lattice blocks.  `full`: the whole 5-degree lattice (thorough tier); otherwise the
+    rows el in LATTICE_ELS.  Every row gets the extents that are wide and flat at high |elevation| and tall at
+    mid elevations, plus a rotating pick of the other extents."""
+    base = _lat_base(layout_name, real)
+    out = []
+    els = list(range(-90, 91, 5)) if full else LATTICE_ELS
+    for el in els:
+        for ai, az in enumerate(range(-180, 180, 5)):
+            exts = []
+            if abs(el) >= 75:
+                exts += EXT_WIDE[:3]
+            elif 30 <= abs(el) <= 50:
+                exts += EXT_TALL[:2]
+            k = (ai + (el + 90) // 5) % len(EXT_ALL)
+            exts.append(EXT_ALL[k])
+            if full:
+                exts.append(EXT_ALL[(k * 7 + 3) % len(EXT_ALL)])
+                exts.append(rng.choice(EXT_ALL))
+            else:
+                exts.append(rng.choice(EXT_ALL))
+            for w, h in exts:
+                c = dict(base, position=[float(az), float(el), 1.0], width=w, height=h)
+                r = rng.random()
+                if r < 0.1:
+                    c["depth"] = 0.5
+                elif r < 0.2:
+                    c["div"] = [rng.choice([0.5, 1.0]), rng.choice([30.0, 45.0, 90.0]), None]
+                elif r < 0.25:
+                    c["position"] = [float(az), float(el), rng.choice([0.5, 0.75])]
+                elif r < 0.3:
+                    c["diffuse"], c["gain"], c["ogain"] = 0.5, 2.0, 0.25
+                out.append(c)
+    # 1-degree lattice (sampled)
+    for _ in range(600 if full else 150):
+        w, h = rng.choice(EXT_ALL)
+        out.append(dict(base, position=[float(rng.randint(-180, 180)), float(rng.randint(-90, 90)), 1.0], width=w, height=h,
+                        depth=rng.choice([0.0, 0.0, 0.0, 0.5])))
+    # Cartesian lattice: multiples of 0.25 (all 729 when full) and of 0.1 (sampled), Cartesian extents
+    cext = [0.0, 0.0, 0.1, 0.25, 0.5, 1.0]
+    q = [-1.0, -0.75, -0.5, -0.25, 0.0, 0.25, 0.5, 0.75, 1.0]
+    pts = [[x, y, z] for x in q for y in q for z in q]
+    if not full:
+        pts = rng.sample(pts, 120)
+    for pt in pts:
+        out.append(dict(base, cartesian=True, position=pt, width=rng.choice(cext), height=rng.choice(cext),
+                        depth=rng.choice(cext)))
+    for _ in range(300 if full else 60):
+        pt = [rng.randint(-10, 10) / 10.0 for _ in range(3)]
+        c = dict(base, cartesian=True, position=pt, width=rng.choice(cext), height=rng.choice(cext), depth=rng.choice(cext))
+        if rng.random() < 0.15:
+            c["div"] = [rng.choice([0.5, 1.0]), None, rng.choice([0.1, 0.25, 0.5])]
+        out.append(c)
+    for c in out:
+        c["lattice"] = True
+    return out
+
+# --------------------------------------------------------------------------------------
 # admissible real-position layouts (thorough tier)
 
 
@@ -428,6 +504,10 @@ def features(case):
 
 def boundary_class(case):
     b = []
+    if case.get("lattice"):
+        b.append("lattice-cart" if case["cartesian"] else
+                 "lattice-polar-el%+d" % int(case["position"][1]) if abs(case["position"][1]) in (85.0, 80.0, 45.0, 40.0)
+                 else "lattice-polar")
     p = case["position"]
     if case["cartesian"]:
         nb = sum(1 for x in p if abs(x) == 1.0)
